@@ -1,0 +1,89 @@
+//go:build verif
+
+package astisub
+
+// Verification hooks for ssa.go (build tag "verif"): exported pass-through wrappers around the
+// unexported row-level functions. Add-only; never compiled without the tag.
+
+import "time"
+
+// VerifSSAEvent mirrors ssaEvent field by field
+type VerifSSAEvent struct {
+	Category       string
+	Effect         string
+	End            time.Duration
+	Layer          *int
+	Marked         *bool
+	MarginLeft     *int
+	MarginRight    *int
+	MarginVertical *int
+	Name           string
+	Start          time.Duration
+	Style          string
+	Text           string
+}
+
+func verifFromSSAEvent(e *ssaEvent) *VerifSSAEvent {
+	return &VerifSSAEvent{Category: e.category, Effect: e.effect, End: e.end, Layer: e.layer, Marked: e.marked,
+		MarginLeft: e.marginLeft, MarginRight: e.marginRight, MarginVertical: e.marginVertical, Name: e.name,
+		Start: e.start, Style: e.style, Text: e.text}
+}
+
+func (v VerifSSAEvent) event() *ssaEvent {
+	return &ssaEvent{category: v.Category, effect: v.Effect, end: v.End, layer: v.Layer, marked: v.Marked,
+		marginLeft: v.MarginLeft, marginRight: v.MarginRight, marginVertical: v.MarginVertical, name: v.Name,
+		start: v.Start, style: v.Style, text: v.Text}
+}
+
+// VerifSSAStyleFromString exposes newSSAStyleFromString followed by ssaStyle.style
+func VerifSSAStyleFromString(content string, format map[int]string) (*Style, error) {
+	s, err := newSSAStyleFromString(content, format)
+	if err != nil {
+		return nil, err
+	}
+	return s.style(), nil
+}
+
+// VerifSSAStyleString exposes newSSAStyleFromStyle followed by ssaStyle.string
+func VerifSSAStyleString(s Style, format []string) string {
+	return newSSAStyleFromStyle(s).string(format)
+}
+
+// VerifSSAEventFromString exposes newSSAEventFromString
+func VerifSSAEventFromString(header, content string, format map[int]string) (*VerifSSAEvent, error) {
+	e, err := newSSAEventFromString(header, content, format)
+	if err != nil {
+		return nil, err
+	}
+	return verifFromSSAEvent(e), nil
+}
+
+// VerifSSAEventString exposes ssaEvent.string
+func VerifSSAEventString(e VerifSSAEvent, format []string) string {
+	return e.event().string(format)
+}
+
+// VerifSSAEventItem exposes ssaEvent.item
+func VerifSSAEventItem(e VerifSSAEvent, styles map[string]*Style) (*Item, error) {
+	return e.event().item(styles)
+}
+
+// VerifSSAEventFromItem exposes newSSAEventFromItem
+func VerifSSAEventFromItem(i Item) *VerifSSAEvent {
+	return verifFromSSAEvent(newSSAEventFromItem(i))
+}
+
+// VerifNewColorFromSSAColor exposes newColorFromSSAColor
+func VerifNewColorFromSSAColor(s string) (*Color, error) {
+	return newColorFromSSAColor(s)
+}
+
+// VerifSSAColorString exposes newSSAColorFromColor
+func VerifSSAColorString(c *Color) string {
+	return newSSAColorFromColor(c)
+}
+
+// VerifSSAScriptInfoBytes exposes newSSAScriptInfo followed by ssaScriptInfo.bytes
+func VerifSSAScriptInfoBytes(m *Metadata) []byte {
+	return newSSAScriptInfo(m).bytes()
+}
